@@ -35,30 +35,44 @@ PairOk(d, pi, dt) ==
     [] dt = "c16" -> pi \in {1, 5}
     [] dt \in {"f4", "c8"} -> pi = 5 \/ (d = "velocity" /\ pi = 6)
     [] OTHER -> pi = 5
-PlainInit(i) == Units[i.u].n = 1 /\ i.pi = 1 /\ i.dt = "f8" /\ i.sh = "a"
+PlainInit(i) == Units[i.u].n = 1 /\ i.pi = 1 /\ i.dt = "f8" /\ i.sh = "a" /\ i.reg = "default"
 NarrowProbe(i) == Units[i.u].n = 1 /\ i.pi = 5 /\ i.sh = "a" /\ i.dt \in {"i1", "i4", "f2", "c8"}
 \* Part splits the single-step instance into two TLC runs (0 = everything, 1 = float64/int64 objects, 2 = the other dtypes)
-PartOk(dt) == Part = 0 \/ (Part = 1 /\ dt \in {"f8", "i8"}) \/ (Part = 2 /\ dt \notin {"f8", "i8"})
-GateOn(i) == Profile # "single" \/ PlainInit(i) \/ NarrowProbe(i)
+\* 3 = objects of the custom registry
+PartOk(dt, reg) == \/ Part = 0
+                   \/ Part = 1 /\ reg = "default" /\ dt \in {"f8", "i8"}
+                   \/ Part = 2 /\ reg = "default" /\ dt \notin {"f8", "i8"}
+                   \/ Part = 3 /\ reg = "custom"
+\* spellings an object of the custom registry is written in / converted to: coherent SI, re-valued symbols, code units
+CustomUnit(i) == Units[i].c \in {"reval", "code"} \/ (Units[i].n = 1 /\ Units[i].c = "si")
+\* hist: one or two registry-valued spellings per dimension (re-valued symbols where the dimension has one, else the code unit)
+HistCustomUnit(i) == \/ Units[i].c = "reval"
+                     \/ Units[i].c = "code" /\ ~\E j \in UI : Units[j].d = Units[i].d /\ Units[j].c = "reval"
+                     \/ Units[i].d = "dimensionless" /\ Units[i].n = 1
+GateOn(i) == Profile # "single" \/ PlainInit(i) \/ NarrowProbe(i) \/ (i.reg = "custom" /\ i.pi = 1 /\ i.sh = "a" /\ Units[i.u].c # "si")
 SameOn(i) == Profile # "single" \/ (i.pi = 1 /\ i.dt = "f8") \/ NarrowProbe(i)
 
-InitOk(d, u, pi, dt, sh) ==
-  /\ Units[u].n <= NUin
+InitOk(d, u, pi, dt, sh, reg) ==
+  /\ IF reg = "default" THEN Units[u].n <= NUin /\ Units[u].c # "code"
+     ELSE /\ dt = "f8" /\ d \notin OutsideDims /\ pi \in (IF d = "velocity" THEN {1, 6} ELSE {1})
+          /\ IF Profile = "hist" THEN HistCustomUnit(u) /\ sh = "a" ELSE CustomUnit(u) /\ sh \in {"a", "q"}
   /\ dt # "f8" => Units[u].c = "si"
   /\ PairOk(d, pi, dt)
   /\ dt \in IntDts => \A j \in 1..NElem(sh) : IntOk(ValPairs(d)[pi][j])
   /\ d \in OutsideDims => (Units[u].n = 1 /\ pi = 1 /\ dt = "f8" /\ sh = "a")
   /\ Profile = "hist" => ((dt = "i8") <=> (pi = 3)) /\ (dt = "f8" => pi # 5)
-Init == \E d \in AllDims : \E u \in UnitsOfDim(d), pi \in PairIdx(d), ds \in DtShs :
-          /\ InitOk(d, u, pi, ds[1], ds[2]) /\ PartOk(ds[1])
-          /\ init = [d |-> d, u |-> u, pi |-> pi, dt |-> ds[1], sh |-> ds[2], v |-> MkObj(d, u, ValPairs(d)[pi], ds[1], ds[2]).v]
-          /\ obj = MkObj(d, u, ValPairs(d)[pi], ds[1], ds[2])
+Init == \E d \in AllDims : \E u \in UnitsOfDim(d), pi \in PairIdx(d), ds \in DtShs, reg \in Regs :
+          /\ InitOk(d, u, pi, ds[1], ds[2], reg) /\ PartOk(ds[1], reg)
+          /\ init = [d |-> d, u |-> u, pi |-> pi, dt |-> ds[1], sh |-> ds[2], reg |-> reg, v |-> MkObj(d, u, ValPairs(d)[pi], ds[1], ds[2]).v]
+          /\ obj = [MkObj(d, u, ValPairs(d)[pi], ds[1], ds[2]) EXCEPT !.reg = reg]
           /\ hist = <<>>
 
 Targets(o, eq) ==
   {tu \in UI :
      LET tb == Units[tu].d IN
-     \/ /\ Covered(eq, o.d, tb) /\ Units[tu].n <= NUout
+     \/ /\ Covered(eq, o.d, tb)
+        /\ IF o.reg = "default" THEN Units[tu].n <= NUout /\ Units[tu].c # "code"
+           ELSE IF Profile = "hist" THEN HistCustomUnit(tu) ELSE CustomUnit(tu)
         /\ o.dt # "f8" => Units[o.u].c = "si"      \* narrow/integer/complex objects are only converted from coherent SI units
      \/ /\ Uncovered(eq, o.d, tb) /\ Units[tu].n = 1 /\ GateOn(init)
         /\ Profile = "single" \/ (tb \in {"time", "energy"} /\ eq \in {"thermal", "lorentz"})
@@ -70,30 +84,40 @@ Kws(o, eq, tu) == IF ~Covered(eq, o.d, Units[tu].d) THEN {1}
                   ELSE KwOk(eq) \cap {1, 4}
 Follows(en, last) == IF en \in InPlaceEntries THEN {TRUE} ELSE IF en = "to_value" \/ last THEN {FALSE} ELSE {TRUE, FALSE}
 
-Step(en, eq, k, tu, fo) ==
+EnIdx(en) == CASE en = "to" -> 0 [] en = "in_units" -> 1 [] en = "to_equivalent" -> 2 [] en = "to_value" -> 3
+               [] en = "convert_to_units" -> 4 [] en = "convert_to_equivalent" -> 5
+ShIdx(sh) == CASE sh = "q" -> 0 [] sh = "a" -> 1 [] sh = "v1" -> 2 [] sh = "v2" -> 3
+EqIdx(eq) == CHOOSE i \in DOMAIN EqNames : EqNames[i] = eq
+\* form of the target: objects of the custom registry get all forms (a default-registry Unit object cannot spell a code
+\* unit); objects of the default registry alternate between a string and a Unit object along the diagonal
+TfIdx(tf) == CASE tf = "str" -> 0 [] tf = "uin" -> 1 [] tf = "udef" -> 2
+\* (a Unit object of ANOTHER registry is re-read by its expression in the array's registry - unyt's way of adopting
+\* foreign units, C13's subject - so that form is generated only for spellings that mean the same in both registries)
+TFs(en, tu) == IF init.reg = "custom" /\ Profile # "hist" THEN (IF Units[tu].c = "si" THEN TForms ELSE {"str", "uin"})
+               ELSE IF Profile = "sim" THEN {"str", "uin"}
+               ELSE IF (Units[tu].n + Units[init.u].n + init.pi + EnIdx(en) + Len(hist)) % 2 = 0 THEN {"str"} ELSE {"uin"}
+Step(en, eq, k, tu, fo, tf) ==
   LET q == [en |-> en, eq |-> eq, k |-> k, tu |-> tu, fo |-> fo]
       out == Outcome(obj, q)
       tb == Units[tu].d
       fv == IF Covered(eq, obj.d, tb) THEN FormulaVals(eq, obj.d, tb, k, obj.v) ELSE <<>> IN
   /\ out.k # "undef"
   /\ Covered(eq, obj.d, tb) => fv # <<>>
-  /\ hist' = Append(hist, [en |-> en, eq |-> eq, k |-> k, tu |-> tu, fo |-> fo, kw |-> KwRec(k), exp |-> out, cand |-> fv])
+  /\ hist' = Append(hist, [en |-> en, eq |-> eq, k |-> k, tu |-> tu, fo |-> fo, tf |-> tf, kw |-> KwRec(k), exp |-> out, cand |-> fv])
   /\ obj' = After(obj, q, out)
   /\ init' = init
 \* profile hist: every step of a history uses one equivalence (keywords free); mixed chains are left to the simulator
 EqsNow == IF Profile = "hist" /\ Len(hist) > 0 THEN {hist[1].eq} ELSE EqSet
 \* thinning (Diag > 1): a covering-array style diagonal over (input unit, target unit, value pair, entry point, shape,
 \* equivalence); Diag = 0 or 1 keeps everything.  Every (equivalence, from, to, keyword setting) cell keeps 1/Diag of its cases.
-EnIdx(en) == CASE en = "to" -> 0 [] en = "in_units" -> 1 [] en = "to_equivalent" -> 2 [] en = "to_value" -> 3
-               [] en = "convert_to_units" -> 4 [] en = "convert_to_equivalent" -> 5
-ShIdx(sh) == CASE sh = "q" -> 0 [] sh = "a" -> 1 [] sh = "v1" -> 2 [] sh = "v2" -> 3
-EqIdx(eq) == CHOOSE i \in DOMAIN EqNames : EqNames[i] = eq
-DiagOk(eq, tu, en) == IF Diag <= 1 \/ Profile = "sim" THEN TRUE
-                      ELSE (Units[tu].n + Units[init.u].n + init.pi + EnIdx(en) + ShIdx(init.sh) + EqIdx(eq) + Len(hist)) % Diag = 0
+DiagOk(eq, tu, en, tf) == IF Diag <= 1 \/ Profile = "sim" THEN TRUE
+                          ELSE (Units[tu].n + Units[init.u].n + init.pi + EnIdx(en) + ShIdx(init.sh) + EqIdx(eq) + Len(hist)
+                                + (IF init.reg = "custom" THEN TfIdx(tf) ELSE 0)) % Diag = 0
 Next == /\ Len(hist) < MaxLen
         /\ \E eq \in EqsNow : \E tu \in Targets(obj, eq) : \E k \in Kws(obj, eq, tu), en \in Entries :
-             /\ DiagOk(eq, tu, en)
-             /\ \E fo \in Follows(en, Len(hist) + 1 = MaxLen) : Step(en, eq, k, tu, fo)
+             \E tf \in TFs(en, tu) :
+             /\ DiagOk(eq, tu, en, tf)
+             /\ \E fo \in Follows(en, Len(hist) + 1 = MaxLen) : Step(en, eq, k, tu, fo, tf)
 Spec == Init /\ [][Next]_vars
 
 ExportHist == Len(hist) = ExportLen => PrintT(ToJson([tag |-> "HIST", init |-> init, h |-> hist]))
